@@ -430,6 +430,16 @@ class Failure(Exception):
         self.kind, self.step, self.detail = kind, step, detail
 
 
+def _has_marker_key(x, depth=0):
+    if depth > 30:
+        return False
+    if type(x) is dict:
+        return any((k is ... and v is not ...) or _has_marker_key(v, depth + 1) for k, v in x.items())
+    if type(x) is list:
+        return any(_has_marker_key(y, depth + 1) for y in x)
+    return False
+
+
 def probes_for(name, s):
     """probe values of a schema, a deterministic function of the variable name and the schema"""
     r = random.Random(zlib.crc32(name.encode()))
@@ -989,7 +999,9 @@ class HistoryGen:
         if s is not None and c < 0.6:
             try:
                 v = gen.conform(r, self.rn.env[s])
-                p = gen.perturbations(r, v, limit=6)
+                # (values with a `...` KEY whose member is not `...` are a shape the store model has no rule for; the
+                # marker-argument probe and C08 cover them)
+                p = [x for x in gen.perturbations(r, v, limit=6) if not _has_marker_key(x)]
                 if p:
                     return self.value_spec(r.choice(p))
             except Exception:  # noqa
